@@ -17,7 +17,7 @@ CLAIMED = {
     "C16": dict(
         text="Theorems about the Gallina model of DomainName/Label (constructors produce well-formed names, completeness of "
              "rejection, case-insensitivity, dotted round trip, subdomain = suffix, zone selection), proved for all inputs; "
-             "model tied to the Rust code by a differential stream over boundary-heavy generated inputs. The stream includes wire names ending in pointers into earlier names with totals sweeping the 255-octet limit; the oracle reads dotted text independently.",
+             "model tied to the Rust code by a differential stream over boundary-heavy generated inputs. The stream includes wire names ending in pointers into earlier names with totals sweeping the 255-octet limit; the oracle reads dotted text independently. Case-insensitivity is also proved on the wire (C16_wire_case_insensitive): two byte strings that agree in the length octets and pointers of the name read at an offset and whose label octets are equal after ASCII case folding, through every pointer followed, decode to the same name and next offset (or the same error).",
         design="5/C16", technique="Coq proof over executable model + model/impl correspondence (extraction)"),
     "C02": dict(
         text="Theorems about the Gallina model of Zone/ZoneRecords (new, insert, insert_wildcard, resolve, zone_result_helper): "
@@ -368,9 +368,17 @@ CLAIMED = {
              "represents (relation R of the C02 development) exactly the denoted records -- origin tracking, owner/TTL/"
              "wildcard-ness inherited from the previous record (TTL as loaded, D3), an owner expanding to '*.x' a wildcard "
              "(fix 0286676), TTLs raised to the SOA minimum; with the codec of Ip/IpModel.v no hypothesis is left "
-             "(C11_parse_denotes_zf). The theorem fixes the SPELLING (lower-case names, numbers/addresses as Display prints "
-             "them, no TYPE<n>); other spellings are covered by the correspondence stream, whose oracle is an independent "
-             "python denotation of the abstract file.",
+             "(C11_parse_denotes_zf). C11_parse_denotes fixes the SPELLING (lower-case names, numbers/addresses as Display "
+             "prints them, the type by its mnemonic); C11_parse_denotes_spelled (PROVED, coq/ZoneFile/ZoneParseSpelling.v) extends it "
+             "to RESPELLED files: every name token in any ASCII letter case (parse_domain / parse_domain_or_wildcard fold the case "
+             "of every text: C11_spelling_upper), RDATA numbers as any text <uN as FromStr> accepts -- leading zeros, one leading "
+             "'+' (C11_spelling_numbers) --, the TTL as any all-digit text, addresses as any text the codec's FromStr accepts, the "
+             "type also as TYPE<n> for a known code (C11_spelling_type), the root wildcard also as '*.' "
+             "(C11_spelling_root_wildcard), under two decidable side conditions that keep parse_rr's reading of the fields "
+             "unchanged (owner token not IN/$ORIGIN/$INCLUDE; no RDATA token but the last a type mnemonic); a sound executable "
+             "checker (lines_ok_spb) and an instance using all respellings at once are included. Left unproved: a '+' in the TTL "
+             "field and weaker side conditions (C11_parse_denotes_spelling_partial, in a comment); those spellings are covered "
+             "by the correspondence stream, whose oracle is an independent python denotation of the abstract file.",
         note="Conventions D3 (SOA RR loaded with TTL = MINIMUM, inherited as loaded) and D4 (a non-IN class mnemonic where an owner "
              "may stand is an owner). Interpretations D9/D10: an unterminated quoted string / an open parenthesis at end of input "
              "is accepted by the tokeniser (malformed text outside the property's fault list; generated, model = impl checked). "
@@ -394,7 +402,11 @@ CLAIMED = {
              "records (data, TTLs, order); normalise_idempotent -- z' written in the order of the first pass gives the very "
              "same text, and written in any order admissible for it and read again is the same zone; loaded_built -- every "
              "zone Zone::deserialise returns is a built zone (labels any ASCII octet but '.', lower-cased; ordinary owners "
-             "never have leftmost label '*' since fix 0286676), hence loaded_roundtrip and ztoz-twice. The address codec "
+             "never have leftmost label '*' since fix 0286676), hence loaded_roundtrip and ztoz-twice; "
+             "normalise_idempotent_text -- for the model's own record order (names sorted by the derived Ord, proved a total order; "
+             "type groups of a name in the insertion order of the type map; Vec order inside) the zone read back from the text of a "
+             "built or loaded zone serialises to LITERALLY the same text (the type groups of the re-read zone come in the order in "
+             "which the first pass listed them: key order of the type maps under insertion, ZoneFile/ZoneRtText.v). The address codec "
              "(std's Ipv4Addr/Ipv6Addr Display/FromStr, outside /repo) enters through two hypotheses (Display then FromStr is "
              "the identity and writes plain characters; FromStr yields values in range), both PROVED for the codec model of "
              "Ip/IpModel.v the drivers run with, so the instance theorems C13_zone_roundtrip_zf / C13_ztoz_twice_zf assume "
@@ -405,9 +417,10 @@ CLAIMED = {
              "pushed through insert() (the serialiser skips them), labels containing '.', non-ASCII labels, an ordinary owner (or "
              "apex) whose leftmost label is exactly '*' built through the API (such an owner IS the wildcard syntax). Found while "
              "proving and fixed in /repo (0286676, known_findings class star-owner-via-origin): '@' under '$ORIGIN *.x' used to "
-             "load an ordinary record at '*.x', which did not round-trip. Not proved: that the model's own second-pass text is "
-             "literally the first-pass text (needs the insertion order of the type maps; checked by the stream: 'true,true'). "
-             "HashMap order of type groups is canonicalised in the stream (stable sort of a block's lines by owner and type).",
+             "load an ordinary record at '*.x', which did not round-trip. The literal second-pass = first-pass text theorem is about "
+             "the model's deterministic insertion order of the type groups; the implementation's HashMap order is arbitrary, so for it "
+             "the claim is C13_normalise_idempotent (any admissible order gives the same zone; the same order the same text) and the "
+             "stream canonicalises the order of type groups (stable sort of a block's lines by owner and type).",
         design="5/C13", technique="Coq proof over executable model + model/impl correspondence (extraction) + real ztoz binary"),
     "C17": dict(
         text="Zone-file part: theorems about the Gallina model of zones/deserialise.rs and of the tree insertion of zones/types.rs, "
